@@ -346,16 +346,17 @@ From PcfgGen Require Loader2_gen.
 
 (* load_rules called on an empty dict: True and the dict of Loader2Model.enc_omen_tables (alphabet_encoding,
    ngram, max_level = 10, alphabet, ip / ln as {0..10: list}, ep, cp as nested dicts in file order) when every
-   file reads, else False (the exception is one `except Exception` catches) *)
+   file reads, else False (when the exception is one `except Exception` catches; the runtime's own
+   XUnmodelled would escape) *)
 Theorem C07_source_omen_load_rules_is_model :
   forall (fo : fops) (C S : Type) (W : Loader2Rt.world fo C S) (iws : N -> bool) (dz : list N),
   (forall s, Loader2Rt.w_pint W s = parse_int iws dz s) -> forall dir : pstr,
   match Loader2Model.omen_guesser_load fo W iws dz dir with
   | inl t => Loader2_gen.py_omen_load_rules fo W (Loader2Rt.VStr dir) (Loader2Rt.VDict []) =
              Loader2Rt.XDone (Loader2Model.enc_omen_tables t, Loader2Rt.VBool true)
-  | inr e => Loader2Rt.x_isa (Loader2Rt.XC LoaderRt.CException) e = true ->
-             exists g', Loader2_gen.py_omen_load_rules fo W (Loader2Rt.VStr dir) (Loader2Rt.VDict []) =
-                        Loader2Rt.XDone (g', Loader2Rt.VBool false)
+  | inr e => exists g', Loader2_gen.py_omen_load_rules fo W (Loader2Rt.VStr dir) (Loader2Rt.VDict []) =
+                        if Loader2Rt.x_isa (Loader2Rt.XC LoaderRt.CException) e
+                        then Loader2Rt.XDone (g', Loader2Rt.VBool false) else Loader2Rt.XFail e
   end.
 Proof. exact (@Loader2GenProofs.omen_load_rules_cases). Qed.
 
